@@ -484,6 +484,9 @@ class Array(Generic[T], Collection):
     def __init__(self, child, size: int, contained_type: T = None):
         if size is not None and (not isinstance(size, int) or size < 1):
             raise ValueError(f"Array size must be a positive integer, got {size!r}")
+        if size is None and child is not None and contained_type is None:
+            # Only parameter templates and arrays derived from them have no size.
+            raise ValueError("Array size is required")
         self.contained_type = (
             contained_type
             if (child is None or contained_type is not None)
